@@ -118,6 +118,12 @@ def build_cases(tier):
         cases.append((f'repeat_noncopy_{k}', body, ''))
     # type-level repeat with a length typenum names but const generics cannot
     body = '''let a = arr![1u8; U4096]; ck!(a.len() == 4096 && a.iter().all(|x| *x == 1), "arr![x; U4096]");
+    // type-level lengths that const generics cannot name (no Const<N> mapping in typenum): any Unsigned works
+    let o = arr![2u8; Add1<U1024>]; ck!(o.len() == 1025 && o.iter().all(|x| *x == 2), "arr![x; 1025 as a type]");
+    let t = arr![3u16; Prod<U3, U1000>]; ck!(t.len() == 3000 && t.iter().all(|x| *x == 3), "arr![x; 3000 as a type]");
+    const CO: GA<u8, Add1<U1024>> = arr![4u8; Add1<U1024>]; ck!(CO.len() == 1025 && CO[1024] == 4, "arr![x; 1025 as a type] in a const item");
+    let ob = box_arr![2u8; Add1<U1024>]; ck!(*ob == o, "box_arr![x; 1025 as a type]");
+    let tb = box_arr![3u16; Prod<U3, U1000>]; ck!(*tb == t, "box_arr![x; 3000 as a type]");
     let b = box_arr![1u8; U4096]; ck!(*b == a, "box_arr![x; U4096]");
     let e: GA<u8, U0> = arr![]; let e2: GA<u8, U0> = arr![,]; ck!(e.len() == 0 && e2.len() == 0, "empty arr!");
     let eb: Box<GA<u8, U0>> = box_arr![]; ck!(eb.len() == 0, "empty box_arr!");
